@@ -224,6 +224,29 @@ theorem C06_encoder_call_fields (e : Encoder) (calls : List EncCall) (i : Nat) (
         show ((s : Nat) : Int) = c0.source.getD 0
         exact hs.symm
 
+/-- The labels of a message do not depend on what the encoder object was given before.  The same call at the end of
+any two histories, on any two encoder objects, yields - whenever it produces a message at all - the type and version
+of ITS payload object, and the same source identifier, payload size and payload bytes in both; only the sequence
+number (and with it the CRC) may differ.  In particular a payload whose class derives from the class of the previous
+call's payload goes out under its own type, exactly as it does on a fresh encoder. -/
+theorem C06_encoder_labels_independent_of_history (e₁ e₂ : Encoder) (pre₁ pre₂ : List EncCall) (c : EncCall)
+    (o₁ o₂ : Bytes)
+    (h₁ : (encodeAll e₁ (pre₁ ++ [c]))[pre₁.length]? = some (.ok o₁))
+    (h₂ : (encodeAll e₂ (pre₂ ++ [c]))[pre₂.length]? = some (.ok o₂)) :
+    (parseHeader o₁).messageType = c.type ∧ (parseHeader o₁).messageVersion = c.version ∧
+    (parseHeader o₂).messageType = c.type ∧ (parseHeader o₂).messageVersion = c.version ∧
+    (parseHeader o₁).sourceId = (parseHeader o₂).sourceId ∧
+    (parseHeader o₁).payloadSize = (parseHeader o₂).payloadSize ∧ o₁.drop HDR = o₂.drop HDR := by
+  have hc₁ : (pre₁ ++ [c])[pre₁.length]? = some c := by simp
+  have hc₂ : (pre₂ ++ [c])[pre₂.length]? = some c := by simp
+  obtain ⟨s1, t1, v1, p1, z1⟩ := C06_encoder_call_fields e₁ _ _ c o₁ hc₁ h₁
+  obtain ⟨s2, t2, v2, p2, z2⟩ := C06_encoder_call_fields e₂ _ _ c o₂ hc₂ h₂
+  have hp : o₁.drop HDR = o₂.drop HDR := Option.some.inj (p1.symm.trans p2)
+  refine ⟨t1, v1, t2, v2, ?_, ?_, hp⟩
+  · have := s1.trans s2.symm
+    omega
+  · rw [z1, z2, hp]
+
 /-- The only thing a history of calls leaves behind in the encoder object is the NUMBER of messages it
 produced: the state after the history is the starting sequence number advanced by that count modulo 2^32
 (so a later call cannot depend on the source identifiers, types or payloads of earlier calls, nor on the
